@@ -440,3 +440,892 @@ Proof. split; destruct c; discriminate. Qed.
 (* the result of a call, once it returns *)
 Definition res_val (s : mstate) (k : Z) (r : res) : Prop :=
   match r with RLos m _ => kval s k m | ROpt (Some x) => kval s k x | _ => True end.
+
+(* ---- the state transformers of the lock holder ---- *)
+Lemma ext_misses s m : ext s (st_with_misses s m).
+Proof. repeat split; auto. Qed.
+Lemma all_val_misses s m : all_val s -> all_val (st_with_misses s m).
+Proof. intros H. exact H. Qed.
+
+Lemma ext_promote s : WF_core s -> WF_ad s -> all_val s -> dirty s <> None ->
+  ext s (MState (ents s) (next_e s) (default ∅ (dirty s)) false None 0).
+Proof.
+  intros Hc [Hcov _] Ha Hd. destruct (dirty s) as [d|] eqn:E; [|congruence]. repeat split; auto. cbn.
+  intros k e [H|H]; left; cbn.
+  - rewrite (Hcov d k e eq_refl H). rewrite all_val_not_exp; [reflexivity|exact Ha|]. eapply wf_bound; eauto. left. exact H.
+  - unfold dirty_lookup in H. rewrite E in H. exact H.
+Qed.
+
+Lemma ext_insert_new s d key v am :
+  all_val s -> dirty s = Some d -> d !! key = None ->
+  let s' := MState (<[next_e s := PVal v]> (ents s)) (S (next_e s)) (read_m s) am (Some (<[key := next_e s]> d)) (misses s) in
+  all_val s' /\ ext s s' /\ kval s' key v.
+Proof.
+  intros [A1 A2] Hd Hk s'. split; [|split].
+  - split; cbn.
+    + intros e p H. destruct (decide (e = next_e s)) as [->|N].
+      * rewrite lookup_insert in H. injection H as <-. split; [lia|eauto].
+      * rewrite lookup_insert_ne in H by congruence. destruct (A1 e p H). split; [lia|assumption].
+    + intros e He. destruct (decide (e = next_e s)) as [->|N].
+      * rewrite lookup_insert. eauto.
+      * rewrite lookup_insert_ne by congruence. apply A2. lia.
+  - split; [cbn; lia|]. split; cbn.
+    + intros e p H. destruct (A1 e p H) as [He _]. rewrite lookup_insert_ne by lia. exact H.
+    + intros k e [H|H]; [left; exact H|right]. unfold dirty_lookup in *. cbn. rewrite Hd in H.
+      rewrite lookup_insert_ne by congruence. exact H.
+  - exists (next_e s). split; [right|]; cbn; apply lookup_insert.
+Qed.
+
+Lemma ext_dirty_read s : dirty s = None -> ext s (st_with_dirty s (Some ∅)).
+Proof.
+  intros Hd. repeat split; auto. intros k e [H|H]; [left; exact H|]. unfold dirty_lookup in H. rewrite Hd in H. discriminate.
+Qed.
+
+Lemma ext_loop_copy s rdm key vis ck e s' :
+  loop_inv s rdm key vis -> ck ∉ vis -> dirty_insert s ck e = Ok s' -> ext s s' /\ ents s' = ents s /\ next_e s' = next_e s.
+Proof.
+  intros (_ & _ & _ & d & Hd & _ & L6) Hnv H. unfold dirty_insert in H. rewrite Hd in H. injection H as <-.
+  split; [|split; reflexivity]. repeat split; auto. cbn.
+  intros k e0 [H|H]; [left; exact H|right]. unfold dirty_lookup in *. cbn. rewrite Hd in H.
+  rewrite lookup_insert_ne; [exact H|]. intros <-. apply L6 in H as [H _]. contradiction.
+Qed.
+
+Lemma all_val_same s s' : ents s' = ents s -> next_e s' = next_e s -> all_val s -> all_val s'.
+Proof. unfold all_val. intros -> ->. auto. Qed.
+
+Definition io_out (s' : mstate) (k : Z) (o : outcome) : Prop :=
+  match o with
+  | Continue f' => FI s' f' /\ (in_cs f' = true -> LH s' f')
+  | Return r => res_val s' k r
+  | Callback _ _ _ => True
+  end.
+
+Lemma reach_val s k e : all_val s -> WF_core s -> reach_any s k e -> exists v, get_ent s e = PVal v /\ ents s !! e = Some (PVal v).
+Proof. intros Ha Hc H. apply all_val_get; [exact Ha|]. eapply wf_bound; eauto. Qed.
+
+Ltac same_state := split; [assumption|split; [apply ext_refl|split; [reflexivity|]]].
+Ltac in_cs_is b Hl := 
+  match goal with |- context [in_cs ?f] => 
+    let Hin := fresh "Hin" in assert (Hin : in_cs f = b) by (unfold in_cs, cs_class; rewrite Hl; reflexivity) end.
+
+Ltac fi_simpl Hcall := unfold io_out, res_val, FI, LH, los_known, in_cs, cs_class; cbn; rewrite ?Hcall; cbn.
+Ltac fi_easy := repeat split; try discriminate; try (intros; exact I); try (intros; discriminate).
+
+Ltac cs_info Hcs Hl :=
+  let Hw := fresh "Hw" in let Hlh := fresh "Hlh" in let Hin := fresh "Hin" in
+  match type of Hcs with ?X = true -> _ => assert (Hin : X = true) by (unfold in_cs, cs_class; rewrite Hl; reflexivity) end;
+  destruct (Hcs Hin) as [[_ Hw] Hlh]; unfold cs_class in Hw; rewrite Hl in Hw; unfold LH in Hlh; rewrite Hl in Hlh;
+  repeat match type of Hw with context [f_call ?f] => match goal with Hc : f_call f = _ |- _ => rewrite Hc in Hw end end; cbn [key_of] in Hw.
+
+Lemma io_sf t i f ch i' o :
+  io_call (f_call f) -> pc_ok (f_call f) (f_pc f) = true -> frame_ok f ->
+  all_val (i_st i) -> WF_core (i_st i) -> (in_cs f = true -> WFL (i_st i) f /\ LH (i_st i) f) -> FI (i_st i) f ->
+  step_frame t i f ch = Some (Ok (i', o)) ->
+  all_val (i_st i') /\ ext (i_st i) (i_st i') /\ (in_cs f = false -> i_st i' = i_st i) /\
+  io_out (i_st i') (key_of (f_call f)) o.
+Proof.
+  intros Hio Hpc [He Hst Hdel Hpost] Ha Hc Hcs [F1 F2] H. unfold step_frame in H.
+  assert (Hv : forall k e, reach_any (i_st i) k e -> exists v, ent i e = PVal v /\ ents (i_st i) !! e = Some (PVal v))
+    by (intros; eapply reach_val; eauto).
+  destruct (f_call f) as [j k|?|j k v p| | |] eqn:Hcall; try contradiction; cbn in Hio; subst j;
+  destruct (f_pc f) eqn:Hl; try discriminate Hpc; try discriminate H; try (destruct p; discriminate Hpc);
+    cbn in He, F1; unfold los_known in F2; rewrite Hl, ?Hcall in F2; cbn in F2; cbn [key_of] in *.
+  - (* Load_read1 *)
+    repeat case_match; simplify_eq; same_state; fi_simpl Hcall; fi_easy.
+    intros _ e0 [= <-]. left. assumption.
+  - (* Load_lock *)
+    repeat case_match; simplify_eq; same_state; fi_simpl Hcall; fi_easy.
+  - (* Load_read2 *)
+    cs_info Hcs Hl. unfold after_miss in H.
+    repeat case_match; simplify_eq; cbn [i_st with_st]; (split; [assumption|split; [first [apply ext_refl|apply ext_misses]|split; [intros; try congruence; try reflexivity|]]]);
+      fi_simpl Hcall; fi_easy.
+    all: try (intros _ e0 E0; first [left; congruence|right; exact E0]).
+    all: try (intros _; eapply wf_amended; eauto; fail).
+  - (* Load_unlock *)
+    repeat case_match; simplify_eq; same_state; fi_simpl Hcall; fi_easy. intros _ e0 E0. apply F1; congruence.
+  - (* E_load *)
+    destruct (f_e f) as [e|] eqn:Hfe; [|exfalso; apply He; reflexivity].
+    destruct (Hv k e (F1 eq_refl e eq_refl)) as (v & Hv1 & Hv2). rewrite Hv1 in H. simplify_eq. same_state.
+    fi_simpl Hcall. exists e. auto.
+  - (* Miss_store *)
+    cs_info Hcs Hl. simplify_eq. cbn [i_st with_st].
+    assert (Hx := ext_promote _ Hc Hw Ha Hlh).
+    split; [exact Ha|split; [exact Hx|split; [intros; congruence|]]]. fi_simpl Hcall. fi_easy.
+    intros _ e0 E0. apply Hx. auto.
+  - (* Unexpunge_cas *)
+    cs_info Hcs Hl. destruct Hw as [Hw Hk].
+    destruct (f_e f) as [e|] eqn:Hfe; [|exfalso; apply He; reflexivity].
+    destruct (Hv k e (F1 eq_refl e eq_refl)) as (v0 & Hv1 & Hv2). rewrite Hv1 in H. simplify_eq. same_state.
+    fi_simpl Hcall. fi_easy. intros _ e0 E0. apply F1; congruence.
+  - (* LOS_read1 *)
+    repeat case_match; simplify_eq; same_state; fi_simpl Hcall; fi_easy.
+    intros _ e0 [= <-]. left. assumption.
+  - (* LOS_lock *)
+    repeat case_match; simplify_eq; same_state; fi_simpl Hcall; fi_easy.
+  - (* LOS_read2 *)
+    cs_info Hcs Hl. unfold new_entry, dirty_insert, bind in H. cbn in H.
+    destruct (read_m (i_st i) !! k) as [n|] eqn:Hrk; [|destruct (dirty_lookup (i_st i) k) as [e'|] eqn:Hdk;
+      [|destruct (amended (i_st i)) eqn:Ham; [|destruct (dirty (i_st i)) as [d|] eqn:Hd]]].
+    + injection H as <- <-. same_state. fi_simpl Hcall. fi_easy. intros _ e0 [= <-]. left. assumption.
+    + injection H as <- <-. same_state. fi_simpl Hcall. fi_easy.
+      * intros _ e0 [= <-]. right. assumption.
+      * intros _ _. unfold dirty_lookup in *. destruct (dirty (i_st i)); congruence.
+    + unfold dirty_lookup in *. destruct (dirty (i_st i)) as [d|] eqn:Hd; [|discriminate H]. injection H as <- <-.
+      destruct (ext_insert_new (i_st i) d k v (amended (i_st i)) Ha Hd Hdk) as (A1 & A2 & A3). rewrite Ham in *.
+      split; [exact A1|split; [exact A2|split; [intros; congruence|]]]. fi_simpl Hcall. fi_easy. intros _. exact A3.
+    + injection H as <- <-. same_state. fi_simpl Hcall. fi_easy.
+    + injection H as <- <-. same_state. fi_simpl Hcall. fi_easy.
+  - (* LOS_amend *)
+    cs_info Hcs Hl. destruct Hw as [(L1 & L2 & L3 & d & L4 & L5 & L6) Hall].
+    unfold new_entry, dirty_insert, bind, st_with_read in H. cbn in H. rewrite L4 in H. injection H as <- <-. cbn [i_st with_st].
+    assert (Hdk : d !! k = None). { destruct (d !! k) as [e0|] eqn:E; [|reflexivity]. apply L6 in E as [_ E]. congruence. }
+    rewrite L1.
+    destruct (ext_insert_new (i_st i) d k v true Ha L4 Hdk) as (A1 & A2 & A3).
+    split; [exact A1|split; [exact A2|split; [intros; congruence|]]]. fi_simpl Hcall. fi_easy. intros _. exact A3.
+  - (* LOS_unlock *)
+    unfold los_return in H. rewrite ?Hcall in H. cbn in H. destruct (post_label p) eqn:Hp; injection H as <- <-; same_state.
+    + destruct p; cbn in Hp; simplify_eq; fi_simpl Hcall; fi_easy; exact F2.
+    + apply F2. reflexivity.
+  - (* Tlos_load1 *)
+    destruct (f_e f) as [e|] eqn:Hfe; [|exfalso; apply He; reflexivity].
+    destruct (Hv k e (F1 eq_refl e eq_refl)) as (v0 & Hv1 & Hv2). rewrite Hv1 in H.
+    assert (Hkv : kval (i_st i) k v0) by (exists e; split; [apply F1; auto|exact Hv2]).
+    unfold tlos_done in H. destruct (f_mode f) eqn:Hm.
+    + unfold los_return in H. rewrite ?Hcall in H. cbn in H. destruct (post_label p) eqn:Hp; injection H as <- <-; same_state.
+      * destruct p; cbn in Hp; simplify_eq; fi_simpl Hcall; fi_easy; intros _; exact Hkv.
+      * exact Hkv.
+    + injection H as <- <-. same_state. fi_simpl Hcall. fi_easy. intros _; exact Hkv.
+    + assert (Hin : in_cs f = true) by (unfold in_cs, cs_class; rewrite Hl, Hm; reflexivity).
+      destruct (Hcs Hin) as [_ Hlh]. unfold LH in Hlh. rewrite Hl in Hlh. specialize (Hlh Hm).
+      unfold after_miss in H. destruct (misses (i_st i) + 1 <? dirty_len (i_st i))%Z; injection H as <- <-; cbn [i_st with_st];
+        (split; [exact Ha|split; [apply ext_misses|split; [intros; congruence|]]]); fi_simpl Hcall; fi_easy;
+        try (intros _; exact Hkv); try (intros _; exact Hlh).
+      intros _ e0 E0. apply F1; congruence.
+  - (* Tlos_cas *)
+    destruct (f_e f) as [e|] eqn:Hfe; [|exfalso; apply He; reflexivity].
+    destruct (Hv k e (F1 eq_refl e eq_refl)) as (v0 & Hv1 & Hv2). rewrite Hv1 in H. injection H as <- <-. same_state.
+    fi_simpl Hcall. fi_easy.
+    + intros _ e0 E0. apply F1; congruence.
+    + intros Hmode Hm. assert (Hin : in_cs f = true) by (unfold in_cs, cs_class; rewrite Hl, Hm; reflexivity).
+      destruct (Hcs Hin) as [_ Hlh]. unfold LH in Hlh. rewrite Hl in Hlh. auto.
+  - (* Tlos_load2 *)
+    destruct (f_e f) as [e|] eqn:Hfe; [|exfalso; apply He; reflexivity].
+    destruct (Hv k e (F1 eq_refl e eq_refl)) as (v0 & Hv1 & Hv2). rewrite Hv1 in H.
+    assert (Hkv : kval (i_st i) k v0) by (exists e; split; [apply F1; auto|exact Hv2]).
+    unfold tlos_done in H. destruct (f_mode f) eqn:Hm.
+    + unfold los_return in H. rewrite ?Hcall in H. cbn in H. destruct (post_label p) eqn:Hp; injection H as <- <-; same_state.
+      * destruct p; cbn in Hp; simplify_eq; fi_simpl Hcall; fi_easy; intros _; exact Hkv.
+      * exact Hkv.
+    + injection H as <- <-. same_state. fi_simpl Hcall. fi_easy. intros _; exact Hkv.
+    + assert (Hin : in_cs f = true) by (unfold in_cs, cs_class; rewrite Hl, Hm; reflexivity).
+      destruct (Hcs Hin) as [_ Hlh]. unfold LH in Hlh. rewrite Hl in Hlh. specialize (Hlh Hm).
+      unfold after_miss in H. destruct (misses (i_st i) + 1 <? dirty_len (i_st i))%Z; injection H as <- <-; cbn [i_st with_st];
+        (split; [exact Ha|split; [apply ext_misses|split; [intros; congruence|]]]); fi_simpl Hcall; fi_easy;
+        try (intros _; exact Hkv); try (intros _; exact Hlh).
+      intros _ e0 E0. apply F1; congruence.
+  - (* Miss_store *)
+    cs_info Hcs Hl. simplify_eq. cbn [i_st with_st].
+    assert (Hx := ext_promote _ Hc Hw Ha Hlh).
+    split; [exact Ha|split; [exact Hx|split; [intros; congruence|]]]. fi_simpl Hcall. fi_easy.
+    intros _. eapply kval_ext; eauto.
+  - (* Dirty_read *)
+    cs_info Hcs Hl. destruct Hw as (Hw & Hd & Hk). injection H as <- <-. cbn [i_st with_st].
+    split; [exact Ha|split; [apply ext_dirty_read, Hd|split; [intros; congruence|]]].
+    unfold dirty_next. case_match; fi_simpl Hcall; fi_easy.
+  - (* Dirty_iter *)
+    repeat case_match; simplify_eq; same_state; fi_simpl Hcall; fi_easy.
+  - (* Expunge_load1 *)
+    cs_info Hcs Hl. destruct Hw as (vis & Hvis & Hnv & Hcur & Hloop).
+    destruct (f_e f) as [e|] eqn:Hfe; [|exfalso; apply He; reflexivity].
+    assert (Hrk : read_m (i_st i) !! f_curk f = Some e) by (destruct Hloop as [<- _]; exact Hcur).
+    destruct (Hv (f_curk f) e (or_introl Hrk)) as (v0 & Hv1 & Hv2). rewrite Hv1 in H.
+    unfold expunge_done, bind in H.
+    destruct (dirty_insert (i_st i) (f_curk f) e) as [s'|] eqn:Hs'; [|discriminate]. cbn in H. injection H as <- <-.
+    destruct (ext_loop_copy _ _ _ _ _ _ _ Hloop Hnv Hs') as (A1 & A2 & A3). cbn [i_st with_st].
+    split; [eapply all_val_same; eauto|split; [exact A1|split; [intros; congruence|]]].
+    unfold dirty_next. case_match; fi_simpl Hcall; fi_easy.
+  - (* Expunge_cas *)
+    cs_info Hcs Hl. destruct Hw as (vis & Hvis & Hnv & Hcur & Hloop).
+    destruct (f_e f) as [e|] eqn:Hfe; [|exfalso; apply He; reflexivity].
+    assert (Hrk : read_m (i_st i) !! f_curk f = Some e) by (destruct Hloop as [<- _]; exact Hcur).
+    destruct (Hv (f_curk f) e (or_introl Hrk)) as (v0 & Hv1 & Hv2). rewrite Hv1 in H. injection H as <- <-.
+    same_state. fi_simpl Hcall. fi_easy.
+  - (* Expunge_load2 *)
+    cs_info Hcs Hl. destruct Hw as (vis & Hvis & Hnv & Hcur & Hloop).
+    destruct (f_e f) as [e|] eqn:Hfe; [|exfalso; apply He; reflexivity].
+    assert (Hrk : read_m (i_st i) !! f_curk f = Some e) by (destruct Hloop as [<- _]; exact Hcur).
+    destruct (Hv (f_curk f) e (or_introl Hrk)) as (v0 & Hv1 & Hv2). rewrite Hv1 in H.
+    unfold expunge_done, bind in H.
+    destruct (dirty_insert (i_st i) (f_curk f) e) as [s'|] eqn:Hs'; [|discriminate]. cbn in H. injection H as <- <-.
+    destruct (ext_loop_copy _ _ _ _ _ _ _ Hloop Hnv Hs') as (A1 & A2 & A3). cbn [i_st with_st].
+    split; [eapply all_val_same; eauto|split; [exact A1|split; [intros; congruence|]]].
+    unfold dirty_next. case_match; fi_simpl Hcall; fi_easy.
+Qed.
+
+(* ---- facts from Inv ---- *)
+Lemma Inv_WF_core c j i : Inv c -> nth_error (c_insts c) j = Some i -> WF_core (i_st i).
+Proof.
+  intros HI Hi. destruct (inv_insts c HI j i Hi) as [Hm Hw]. destruct (i_mu i) as [t|] eqn:E; [|apply Hw].
+  destruct (proj1 (Hm t) eq_refl) as (f & Tt & _). apply (Hw f Tt).
+Qed.
+
+Lemma Inv_WFL c j i t f : Inv c -> nth_error (c_insts c) j = Some i -> top_frame c t = Some f ->
+  call_inst (f_call f) = j -> in_cs f = true -> i_mu i = Some t /\ WFL (i_st i) f.
+Proof.
+  intros HI Hi Tt Hj Hcs. destruct (inv_insts c HI j i Hi) as [Hm Hw].
+  assert (Hmu : i_mu i = Some t) by (apply Hm; exists f; auto). rewrite Hmu in Hw. auto.
+Qed.
+
+Lemma step_post_res um f um' r : step_post um f = Some (Ok (um', Return r)) -> r = RUnit \/ exists b, r = RBool b.
+Proof. unfold step_post. intros H. repeat case_match; simplify_eq; eauto. Qed.
+
+Lemma HistOK_pend c t th f : HistOK c -> nth_error (c_threads c) t = Some th -> t_stack th = [f] ->
+  t_fresh th = false -> pend_of (c_hist c) !! t = Some (f_call f).
+Proof. intros HH Hth Hst Hf. rewrite HH, Hth. unfold cur_call. rewrite Hst, Hf. reflexivity. Qed.
+
+Lemma completed_ret h t c r fresh : (fresh = false -> pend_of h !! t = Some c) ->
+  completed (h ++ maybe_inv fresh t c ++ [EvRes t r]) = completed h ++ [(t, c, r)].
+Proof. intros H. unfold completed at 1. rewrite hfold_inv_res by exact H. reflexivity. Qed.
+Lemma completed_cont h t c fresh : (fresh = false -> pend_of h !! t = Some c) ->
+  completed (h ++ maybe_inv fresh t c) = completed h.
+Proof. intros H. unfold completed at 1. rewrite hfold_inv by exact H. reflexivity. Qed.
+
+Lemma res_val_ext s s' k r : ext s s' -> res_val s k r -> res_val s' k r.
+Proof. intros He. destruct r as [|[x|]| | | | |]; cbn; eauto using kval_ext. Qed.
+
+(* ---- the invariant of insert-only configurations ---- *)
+Definition inst_io (c : config) (i : inst) : Prop :=
+  all_val (i_st i) /\
+  (forall t f, top_frame c t = Some f -> FI (i_st i) f /\ (in_cs f = true -> LH (i_st i) f)) /\
+  (forall t cl r, (t, cl, r) ∈ completed (c_hist c) -> res_val (i_st i) (key_of cl) r).
+
+Record IOInv (c : config) : Prop := {
+  io_inv : Inv c;
+  io_shape : Shaped io_call c;
+  io_pc : PcOK c;
+  io_hist : HistOK c;
+  io_inst : exists i, c_insts c = [i] /\ inst_io c i
+}.
+
+(* the instance's state only grows *)
+Definition cext (c c' : config) : Prop :=
+  forall i i', c_insts c = [i] -> c_insts c' = [i'] -> ext (i_st i) (i_st i').
+
+Lemma io_call_not_delete c : io_call c -> forall r, match c with CDelete _ _ => RUnit | _ => r end = r.
+Proof. destruct c; cbn; try contradiction; reflexivity. Qed.
+
+Theorem IOInv_step c t ch c' : IOInv c -> step c t ch = Some c' -> IOInv c' /\ cext c c'.
+Proof.
+  intros [HI HS HP HH (i & Hi & Ha & Hf & Hr)] Hstep.
+  assert (HS0 : Shaped flat_call c) by (eapply Shaped_weaken; [apply io_flat|exact HS]).
+  pose proof (step_fstep _ _ _ _ HI HS0 Hstep) as Hfs.
+  assert (HI' : Inv c') by (eapply Inv_step; eauto).
+  assert (HS' : Shaped io_call c') by exact (Shaped_fstep _ _ _ _ _ HI HS Hfs).
+  assert (HP' : PcOK c') by exact (PcOK_fstep _ _ _ _ HP Hfs).
+  destruct (hist_fstep _ _ _ _ HH Hfs) as [HH' _].
+  assert (Hi0 : nth_error (c_insts c) 0 = Some i) by (rewrite Hi; reflexivity).
+  destruct Hfs as [th f um' r Hth Hst Hpl Hsp|th f k Hth Hst Hpl Hsp|th f i0 i' f' Hth Hst Hpl Hi1 Hsf|th f i0 i' r Hth Hst Hpl Hi1 Hsf];
+    (assert (Hl : t < length (c_threads c)) by (eapply nth_error_lt; eauto));
+    (assert (Tt : top_frame c t = Some f) by (unfold top_frame; rewrite Hth, Hst; reflexivity));
+    (assert (P0 : t_fresh th = false -> pend_of (c_hist c) !! t = Some (f_call f)) by (eapply HistOK_pend; eauto)).
+  - (* keyed-mutex step *)
+    split; [|intros i1 i2 E1 E2; cbn in E2; assert (i1 = i2) by congruence; subst; apply ext_refl].
+    constructor; auto. exists i. split; [exact Hi|]. split; [exact Ha|]. split.
+    + intros t' f0. erewrite top_frame_set; [|exact Hl|reflexivity].
+      destruct (decide (t' = t)) as [->|N]; [|apply Hf].
+      intros H. apply top_frame_next_call in H as [c0 ->]. split; [apply FI_new|]. rewrite in_cs_new. discriminate.
+    + intros t' cl r'. cbn [c_hist]. unfold inv_ev. fold (maybe_inv (t_fresh th) t (f_call f)). rewrite completed_ret by exact P0.
+      rewrite elem_of_app, elem_of_list_singleton. intros [H|[= -> -> ->]]; [eapply Hr; eauto|].
+      destruct (step_post_res _ _ _ _ Hsp) as [->|[b ->]]; exact I.
+  - (* ... panics *)
+    split; [|intros i1 i2 E1 E2; cbn in E2; assert (i1 = i2) by congruence; subst; apply ext_refl].
+    constructor; auto. exists i. split; [exact Hi|]. split; [exact Ha|]. split.
+    + intros t' f0. erewrite top_frame_set; [|exact Hl|reflexivity].
+      destruct (decide (t' = t)) as [->|N]; [|apply Hf]. discriminate.
+    + intros t' cl r'. cbn [c_hist]. unfold inv_ev. fold (maybe_inv (t_fresh th) t (f_call f)). rewrite completed_ret by exact P0.
+      rewrite elem_of_app, elem_of_list_singleton. intros [H|[= -> -> ->]]; [eapply Hr; eauto|]. exact I.
+  - (* a step of the map, the call goes on *)
+    assert (i0 = i) by congruence. subst i0.
+    assert (Hio : io_call (f_call f)). { destruct (HS t th Hth) as [_ Hs]. rewrite Hst in Hs. exact Hs. }
+    assert (Hj : call_inst (f_call f) = 0) by (destruct (f_call f); cbn in Hio; try contradiction; auto).
+    destruct (Hf t f Tt) as [HFI HLH].
+    destruct (io_sf t i f ch i' (Continue f') Hio (HP t f Tt) (inv_frames c HI t f Tt) Ha (Inv_WF_core c 0 i HI Hi0)) as (A1 & A2 & A3 & A4); auto.
+    { intros Hcs. split; [apply (Inv_WFL c 0 i t f HI Hi0 Tt Hj Hcs)|auto]. }
+    assert (Hoth : forall t' f0, t' <> t -> top_frame c t' = Some f0 -> FI (i_st i') f0 /\ (in_cs f0 = true -> LH (i_st i') f0)).
+    { intros t' f0 N T0. destruct (Hf t' f0 T0) as [B1 B2]. split; [eapply FI_ext; eauto|]. intros Hcs0.
+      assert (Hj0 : call_inst (f_call f0) = 0).
+      { unfold top_frame in T0. destruct (nth_error (c_threads c) t') as [th0|] eqn:Hth0; [|discriminate].
+        destruct (HS t' th0 Hth0) as [_ Hs]. destruct (t_stack th0) as [|f1 [|]]; try discriminate; try contradiction.
+        cbn in T0. injection T0 as ->. destruct (f_call f0); cbn in Hs; try contradiction; auto. }
+      destruct (Inv_WFL c 0 i t' f0 HI Hi0 T0 Hj0 Hcs0) as [Hmu _].
+      destruct (in_cs f) eqn:Hcs.
+      - destruct (Inv_WFL c 0 i t f HI Hi0 Tt Hj Hcs) as [Hmu' _]. congruence.
+      - rewrite A3 by reflexivity. auto. }
+    split; [|intros i1 i2 E1 E2; cbn in E2; rewrite Hi in E1, E2; cbn in E2; assert (i1 = i) by congruence; assert (i2 = i') by congruence; subst; exact A2].
+    constructor; auto. exists i'. split; [cbn; rewrite Hi; reflexivity|]. split; [exact A1|]. split.
+    + intros t' f0. erewrite top_frame_set; [|exact Hl|reflexivity].
+      destruct (decide (t' = t)) as [->|N]; [|apply Hoth; exact N]. cbn. intros [= <-]. exact A4.
+    + intros t' cl r'. cbn [c_hist]. unfold inv_ev. fold (maybe_inv (t_fresh th) t (f_call f)). rewrite completed_cont by exact P0.
+      intros H. eapply res_val_ext; eauto.
+  - (* ... the call returns *)
+    assert (i0 = i) by congruence. subst i0.
+    assert (Hio : io_call (f_call f)). { destruct (HS t th Hth) as [_ Hs]. rewrite Hst in Hs. exact Hs. }
+    assert (Hj : call_inst (f_call f) = 0) by (destruct (f_call f); cbn in Hio; try contradiction; auto).
+    destruct (Hf t f Tt) as [HFI HLH].
+    destruct (io_sf t i f ch i' (Return r) Hio (HP t f Tt) (inv_frames c HI t f Tt) Ha (Inv_WF_core c 0 i HI Hi0)) as (A1 & A2 & A3 & A4); auto.
+    { intros Hcs. split; [apply (Inv_WFL c 0 i t f HI Hi0 Tt Hj Hcs)|auto]. }
+    assert (Hoth : forall t' f0, t' <> t -> top_frame c t' = Some f0 -> FI (i_st i') f0 /\ (in_cs f0 = true -> LH (i_st i') f0)).
+    { intros t' f0 N T0. destruct (Hf t' f0 T0) as [B1 B2]. split; [eapply FI_ext; eauto|]. intros Hcs0.
+      assert (Hj0 : call_inst (f_call f0) = 0).
+      { unfold top_frame in T0. destruct (nth_error (c_threads c) t') as [th0|] eqn:Hth0; [|discriminate].
+        destruct (HS t' th0 Hth0) as [_ Hs]. destruct (t_stack th0) as [|f1 [|]]; try discriminate; try contradiction.
+        cbn in T0. injection T0 as ->. destruct (f_call f0); cbn in Hs; try contradiction; auto. }
+      destruct (Inv_WFL c 0 i t' f0 HI Hi0 T0 Hj0 Hcs0) as [Hmu _].
+      destruct (in_cs f) eqn:Hcs.
+      - destruct (Inv_WFL c 0 i t f HI Hi0 Tt Hj Hcs) as [Hmu' _]. congruence.
+      - rewrite A3 by reflexivity. auto. }
+    split; [|intros i1 i2 E1 E2; cbn in E2; rewrite Hi in E1, E2; cbn in E2; assert (i1 = i) by congruence; assert (i2 = i') by congruence; subst; exact A2].
+    constructor; auto. exists i'. split; [cbn; rewrite Hi; reflexivity|]. split; [exact A1|]. split.
+    + intros t' f0. erewrite top_frame_set; [|exact Hl|reflexivity].
+      destruct (decide (t' = t)) as [->|N]; [|apply Hoth; exact N].
+      intros H. apply top_frame_next_call in H as [c0 ->]. split; [apply FI_new|]. rewrite in_cs_new. discriminate.
+    + intros t' cl r'. cbn [c_hist]. unfold inv_ev. fold (maybe_inv (t_fresh th) t (f_call f)). rewrite completed_ret by exact P0.
+      rewrite elem_of_app, elem_of_list_singleton. intros [H|[= -> -> ->]]; [eapply res_val_ext; eauto|].
+      rewrite io_call_not_delete by exact Hio. exact A4.
+Qed.
+
+Definition io_progs (progs : list (list call)) : Prop := Forall (Forall io_call) progs.
+
+Lemma all_val_empty : all_val empty_mstate.
+Proof. split; cbn; [intros e p H; rewrite lookup_empty in H; discriminate|intros e H; lia]. Qed.
+
+Theorem IOInv_init progs : io_progs progs -> IOInv (init_config 1 progs).
+Proof.
+  intros Hp. constructor.
+  - apply Inv_init.
+  - apply Shaped_init, Hp.
+  - apply PcOK_init.
+  - apply HistOK_init.
+  - exists empty_inst. split; [reflexivity|]. split; [apply all_val_empty|]. split.
+    + intros t f H. apply init_top in H as [c ->]. split; [apply FI_new|]. rewrite in_cs_new. discriminate.
+    + intros t cl r H. cbn in H. inversion H.
+Qed.
+
+Lemma cext_refl c : cext c c.
+Proof. intros i i' E1 E2. assert (i = i') by congruence. subst. apply ext_refl. Qed.
+
+Lemma IOInv_run c sched : IOInv c -> IOInv (run_schedule c sched) /\ cext c (run_schedule c sched).
+Proof.
+  revert c. induction sched as [|[t ch] sched IH]; intros c H0; cbn; [split; [exact H0|apply cext_refl]|].
+  destruct (step c t ch) as [c'|] eqn:E; cbn; [|apply IH, H0].
+  destruct (IOInv_step _ _ _ _ H0 E) as [H1 H2]. destruct (IH c' H1) as [H3 H4]. split; [exact H3|].
+  intros i i2 E1 E2. destruct (io_inst _ H1) as (i1 & Ei1 & _). eapply ext_trans; [apply H2|apply H4]; eauto.
+Qed.
+
+Theorem IOInv_reachable progs sched : io_progs progs -> IOInv (run_schedule (init_config 1 progs) sched).
+Proof. intros Hp. apply IOInv_run, IOInv_init, Hp. Qed.
+
+(* between a configuration of a run and a later one *)
+Theorem io_ext progs s1 s2 i1 i2 : io_progs progs ->
+  c_insts (run_schedule (init_config 1 progs) s1) = [i1] ->
+  c_insts (run_schedule (init_config 1 progs) (s1 ++ s2)) = [i2] -> ext (i_st i1) (i_st i2).
+Proof.
+  intros Hp E1 E2. rewrite run_schedule_app in E2.
+  destruct (IOInv_run _ s2 (IOInv_reachable progs s1 Hp)) as [_ H]. apply H; assumption.
+Qed.
+
+(* ---- 1. entries ---- *)
+Theorem io_entries_are_values progs sched i e p : io_progs progs ->
+  c_insts (run_schedule (init_config 1 progs) sched) = [i] ->
+  ents (i_st i) !! e = Some p -> e < next_e (i_st i) /\ exists v, p = PVal v.
+Proof.
+  intros Hp Hi. destruct (io_inst _ (IOInv_reachable progs sched Hp)) as (i0 & Hi0 & [Ha _] & _).
+  assert (i0 = i) by congruence. subst. apply Ha.
+Qed.
+
+Theorem io_allocated_entries_hold_values progs sched i e : io_progs progs ->
+  c_insts (run_schedule (init_config 1 progs) sched) = [i] ->
+  e < next_e (i_st i) -> exists v, get_ent (i_st i) e = PVal v.
+Proof.
+  intros Hp Hi He. destruct (io_inst _ (IOInv_reachable progs sched Hp)) as (i0 & Hi0 & Ha & _).
+  assert (i0 = i) by congruence. subst. destruct (all_val_get _ _ Ha He) as (v & Hv & _). eauto.
+Qed.
+
+Theorem io_entries_never_change progs s1 s2 i1 i2 e p : io_progs progs ->
+  c_insts (run_schedule (init_config 1 progs) s1) = [i1] ->
+  c_insts (run_schedule (init_config 1 progs) (s1 ++ s2)) = [i2] ->
+  ents (i_st i1) !! e = Some p -> ents (i_st i2) !! e = Some p.
+Proof. intros Hp E1 E2. destruct (io_ext progs s1 s2 i1 i2 Hp E1 E2) as (_ & H & _). apply H. Qed.
+
+(* ---- 2. the key -> entry association ---- *)
+Lemma Inv_kfun c j i : Inv c -> nth_error (c_insts c) j = Some i -> kfun (i_st i).
+Proof.
+  intros HI Hi. destruct (inv_insts c HI j i Hi) as [Hm Hw]. destruct (i_mu i) as [t|] eqn:E.
+  - destruct (proj1 (Hm t) eq_refl) as (f & Tt & _ & Hcs). eapply kfun_WFL; eauto.
+  - apply kfun_WF_ad, Hw.
+Qed.
+
+Theorem io_assoc_functional progs sched i k e1 e2 : io_progs progs ->
+  c_insts (run_schedule (init_config 1 progs) sched) = [i] ->
+  reach_any (i_st i) k e1 -> reach_any (i_st i) k e2 -> e1 = e2.
+Proof.
+  intros Hp Hi. eapply (Inv_kfun _ 0); [apply (io_inv _ (IOInv_reachable progs sched Hp))|]. rewrite Hi. reflexivity.
+Qed.
+
+Theorem io_assoc_stable progs s1 s2 i1 i2 k e : io_progs progs ->
+  c_insts (run_schedule (init_config 1 progs) s1) = [i1] ->
+  c_insts (run_schedule (init_config 1 progs) (s1 ++ s2)) = [i2] ->
+  reach_any (i_st i1) k e -> reach_any (i_st i2) k e.
+Proof. intros Hp E1 E2. destruct (io_ext progs s1 s2 i1 i2 Hp E1 E2) as (_ & _ & H). apply H. Qed.
+
+Theorem io_frame_entry progs sched i t f e : io_progs progs ->
+  let c := run_schedule (init_config 1 progs) sched in
+  c_insts c = [i] -> top_frame c t = Some f -> e_is_key (f_pc f) = true -> f_e f = Some e ->
+  reach_any (i_st i) (key_of (f_call f)) e.
+Proof.
+  intros Hp c Hi Tt Hk He. destruct (io_inst _ (IOInv_reachable progs sched Hp)) as (i0 & Hi0 & _ & Hf & _).
+  assert (i0 = i) by (fold c in Hi0; congruence). subst. destruct (Hf t f Tt) as [[H _] _]. auto.
+Qed.
+
+(* ---- 3. one value per key ---- *)
+Definition key_value (c : config) (k m : Z) : Prop := exists i, c_insts c = [i] /\ kval (i_st i) k m.
+
+(* the value a LoadOrStore k obtained (visible in the frame while the keyed mutex acts on it, or in
+   the result of a plain LoadOrStore), or a Load k returned *)
+Definition observed (c : config) (k m : Z) : Prop :=
+  (exists t f, top_frame c t = Some f /\ is_post_label (f_pc f) = true /\ key_of (f_call f) = k /\ (f_los f).1 = m) \/
+  (exists t v p l, (t, CLoadOrStore 0 k v p, RLos m l) ∈ completed (c_hist c)) \/
+  (exists t, (t, CLoad 0 k, ROpt (Some m)) ∈ completed (c_hist c)).
+
+Lemma observed_key_value c k m : IOInv c -> observed c k m -> key_value c k m.
+Proof.
+  intros HI H. destruct (io_inst _ HI) as (i & Hi & _ & Hf & Hr). exists i. split; [exact Hi|].
+  destruct H as [(t & f & Tt & Hpl & <- & <-)|[(t & v & p & l & H)|(t & H)]].
+  - destruct (Hf t f Tt) as [[_ H] _]. apply H. unfold los_known. destruct (f_pc f); try discriminate; reflexivity.
+  - apply Hr in H. exact H.
+  - apply Hr in H. exact H.
+Qed.
+
+Theorem key_value_stable progs s1 s2 k m : io_progs progs ->
+  key_value (run_schedule (init_config 1 progs) s1) k m ->
+  key_value (run_schedule (init_config 1 progs) (s1 ++ s2)) k m.
+Proof.
+  intros Hp (i1 & E1 & H). destruct (io_inst _ (IOInv_reachable progs (s1 ++ s2) Hp)) as (i2 & E2 & _).
+  exists i2. split; [exact E2|]. exact (kval_ext _ _ _ _ (io_ext progs s1 s2 i1 i2 Hp E1 E2) H).
+Qed.
+
+Theorem key_value_functional progs sched k m1 m2 : io_progs progs ->
+  let c := run_schedule (init_config 1 progs) sched in
+  key_value c k m1 -> key_value c k m2 -> m1 = m2.
+Proof.
+  intros Hp c (i1 & E1 & H1) (i2 & E2 & H2). assert (i1 = i2) by congruence. subst.
+  eapply kval_fun; eauto. eapply (Inv_kfun _ 0); [apply (io_inv _ (IOInv_reachable progs sched Hp))|].
+  fold c. rewrite E2. reflexivity.
+Qed.
+
+Theorem one_value_per_key progs s1 s2 k m1 m2 : io_progs progs ->
+  observed (run_schedule (init_config 1 progs) s1) k m1 ->
+  observed (run_schedule (init_config 1 progs) (s1 ++ s2)) k m2 -> m1 = m2.
+Proof.
+  intros Hp H1 H2. apply observed_key_value in H1; [|apply IOInv_reachable, Hp].
+  apply observed_key_value in H2; [|apply IOInv_reachable, Hp].
+  eapply key_value_functional; [exact Hp| |exact H2]. apply key_value_stable; assumption.
+Qed.
+
+(* ================================================================== *)
+(* 4. per-key mutual exclusion of the keyed mutexes                   *)
+(* ================================================================== *)
+(* ---- who holds what, computed from the history ---- *)
+Definition hold : Type := nat * Z * bool.   (* thread, key, exclusively? *)
+
+Definition acquires (c : call) (r : res) : option (Z * bool) :=
+  match c, r with
+  | CLoadOrStore _ k _ (PLock | PWLock), RUnit => Some (k, true)
+  | CLoadOrStore _ k _ (PTryLock | PWTryLock), RBool true => Some (k, true)
+  | CLoadOrStore _ k _ PRLock, RUnit => Some (k, false)
+  | CLoadOrStore _ k _ PTryRLock, RBool true => Some (k, false)
+  | _, _ => None
+  end.
+Definition releases (c : call) (r : res) : option (Z * bool) :=
+  match c, r with
+  | CLoadOrStore _ k _ (PUnlock | PWUnlock), RUnit => Some (k, true)
+  | CLoadOrStore _ k _ PRUnlock, RUnit => Some (k, false)
+  | _, _ => None
+  end.
+
+Fixpoint remove_first (x : hold) (l : list hold) : list hold :=
+  match l with [] => [] | y :: l' => if decide (x = y) then l' else y :: remove_first x l' end.
+
+Definition hold_step (hs : list hold) (x : nat * call * res) : list hold :=
+  match acquires x.1.2 x.2 with
+  | Some (k, b) => hs ++ [(x.1.1, k, b)]
+  | None => match releases x.1.2 x.2 with Some (k, b) => remove_first (x.1.1, k, b) hs | None => hs end
+  end.
+Definition holders_of (l : list (nat * call * res)) : list hold := fold_left hold_step l [].
+Definition holders (c : config) : list hold := holders_of (completed (c_hist c)).
+
+Definition holds_excl (c : config) (t : nat) (k : Z) : Prop := (t, k, true) ∈ holders c.
+Definition holds_shared (c : config) (t : nat) (k : Z) : Prop := (t, k, false) ∈ holders c.
+
+Lemma holders_of_snoc l x : holders_of (l ++ [x]) = hold_step (holders_of l) x.
+Proof. unfold holders_of. rewrite fold_left_app. reflexivity. Qed.
+
+(* ---- remove_first ---- *)
+Lemma remove_first_length x l : x ∈ l -> length l = S (length (remove_first x l)).
+Proof.
+  induction l as [|y l IH]; intros H; [inversion H|]. cbn. destruct (decide (x = y)) as [->|N]; [reflexivity|].
+  cbn. rewrite <- IH; [reflexivity|]. apply elem_of_cons in H as [?|?]; [contradiction|assumption].
+Qed.
+Lemma remove_first_Forall (P : hold -> Prop) x l : Forall P l -> Forall P (remove_first x l).
+Proof.
+  induction l as [|y l IH]; intros H; [constructor|]. inversion H; subst. cbn.
+  destruct (decide (x = y)); [assumption|]. constructor; auto.
+Qed.
+Lemma filter_remove_first_in (P : hold -> Prop) `{forall x, Decision (P x)} x l :
+  P x -> base.filter P (remove_first x l) = remove_first x (base.filter P l).
+Proof.
+  intros Hx. induction l as [|y l IH]; [reflexivity|]. cbn [remove_first]. destruct (decide (x = y)) as [->|N].
+  - rewrite filter_cons_True by exact Hx. cbn [remove_first]. rewrite decide_True by reflexivity. reflexivity.
+  - rewrite !filter_cons. destruct (decide (P y)); [|exact IH]. cbn [remove_first]. rewrite decide_False by exact N. rewrite IH. reflexivity.
+Qed.
+Lemma filter_remove_first_out (P : hold -> Prop) `{forall x, Decision (P x)} x l :
+  ~ P x -> base.filter P (remove_first x l) = base.filter P l.
+Proof.
+  intros Hx. induction l as [|y l IH]; [reflexivity|]. cbn [remove_first]. destruct (decide (x = y)) as [->|N].
+  - rewrite filter_cons_False by exact Hx. reflexivity.
+  - rewrite !filter_cons. destruct (decide (P y)); [|exact IH]. rewrite IH. reflexivity.
+Qed.
+Lemma filter_ext_in (P Q : hold -> Prop) `{forall x, Decision (P x)} `{forall x, Decision (Q x)} (l : list hold) :
+  (forall x, x ∈ l -> (P x <-> Q x)) -> base.filter P l = base.filter Q l.
+Proof.
+  induction l as [|y l IH]; intros HPQ; [reflexivity|]. rewrite !filter_cons.
+  assert (Hy := HPQ y (elem_of_list_here y l)).
+  rewrite IH by (intros x Hx; apply HPQ; right; exact Hx).
+  destruct (decide (P y)), (decide (Q y)); tauto.
+Qed.
+
+(* ---- the mutex of a key ---- *)
+Definition kmut (s : mstate) (k : Z) : option Z :=
+  match read_m s !! k with
+  | Some e => e_load s e
+  | None => match dirty_lookup s k with Some e => e_load s e | None => None end
+  end.
+
+Lemma e_load_Some s e m : e_load s e = Some m <-> ents s !! e = Some (PVal m).
+Proof.
+  unfold e_load, get_ent. destruct (ents s !! e) as [[| |v]|]; cbn; split; intros H; try discriminate; congruence.
+Qed.
+
+Lemma kmut_kval s k m : kfun s -> (kmut s k = Some m <-> kval s k m).
+Proof.
+  intros Hf. unfold kmut. split.
+  - destruct (read_m s !! k) as [e|] eqn:E1.
+    + intros H. exists e. split; [left; exact E1|apply e_load_Some, H].
+    + destruct (dirty_lookup s k) as [e|] eqn:E2; [|discriminate].
+      intros H. exists e. split; [right; exact E2|apply e_load_Some, H].
+  - intros (e & Hr & He). destruct (read_m s !! k) as [e'|] eqn:E1.
+    + assert (e' = e) by (eapply Hf; [left; exact E1|exact Hr]). subst. apply e_load_Some, He.
+    + destruct Hr as [Hr|Hr]; [congruence|]. rewrite Hr. apply e_load_Some, He.
+Qed.
+
+Lemma kmut_ext s s' k m : kfun s -> kfun s' -> ext s s' -> kmut s k = Some m -> kmut s' k = Some m.
+Proof. intros F1 F2 He H. apply kmut_kval; [exact F2|]. eapply kval_ext; [exact He|]. apply kmut_kval; assumption. Qed.
+
+(* ---- the invariant ---- *)
+Definition on_km (km : Z -> option Z) (m : Z) (h : hold) : Prop := km h.1.2 = Some m.
+Global Instance on_km_dec km m h : Decision (on_km km m h).
+Proof. unfold on_km. apply _. Defined.
+
+Definition mutex_ok (st : umutex) (Hm : list hold) : Prop :=
+  match st with
+  | UFree => Hm = []
+  | ULocked => exists t k, Hm = [(t, k, true)]
+  | UReaders n => length Hm = n /\ Forall (fun h : hold => h.2 = false) Hm
+  end.
+
+Definition MInv (c : config) : Prop := exists i, c_insts c = [i] /\
+  Forall (fun h : hold => is_Some (kmut (i_st i) h.1.2)) (holders c) /\
+  forall m, mutex_ok (default UFree (c_um c !! m)) (base.filter (on_km (kmut (i_st i)) m) (holders c)).
+
+(* a thread only unlocks what it holds *)
+Definition disciplined (c : config) : Prop := forall t f, top_frame c t = Some f ->
+  match f_pc f with
+  | KM_Unlock | KRW_Unlock => holds_excl c t (key_of (f_call f))
+  | KRW_RUnlock => holds_shared c t (key_of (f_call f))
+  | _ => True
+  end.
+
+Fixpoint disc_from (c : config) (sched : list (nat * Z)) : Prop :=
+  match sched with
+  | [] => True
+  | (t, ch) :: sched' => disciplined c /\ disc_from (default c (step c t ch)) sched'
+  end.
+
+Lemma sf_ret_shape t i f ch i' r : io_call (f_call f) -> pc_ok (f_call f) (f_pc f) = true ->
+  step_frame t i f ch = Some (Ok (i', Return r)) ->
+  (exists o, r = ROpt o) \/ (exists a l, r = RLos a l).
+Proof.
+  intros Hio Hpc H. unfold step_frame in H.
+  destruct (f_call f) as [j k|?|j k v p| | |] eqn:Hcall; try contradiction;
+  destruct (f_pc f) eqn:Hl; try discriminate Hpc; try discriminate H; try (destruct p; discriminate Hpc);
+    unfold expunge_done, tlos_done, bind in H; unfold after_miss, dirty_next, los_return, range_next in H;
+    rewrite ?Hcall in H; repeat case_match; simplify_eq; eauto.
+Qed.
+
+Lemma pc_ok_post_label i k v p l : pc_ok (CLoadOrStore i k v p) l = true -> is_post_label l = true -> post_label p = Some l.
+Proof. destruct l; cbn; try discriminate; destruct p; cbn; try discriminate; reflexivity. Qed.
+
+Lemma remove_first_here x : remove_first x [x] = [].
+Proof. cbn. rewrite decide_True by reflexivity. reflexivity. Qed.
+
+Lemma length_zero_nil (l : list hold) : length l = 0 -> l = [].
+Proof. destruct l; [reflexivity|discriminate]. Qed.
+
+(* the step on the key's mutex, on the ghost level *)
+Lemma mutex_post (km : Z -> option Z) (hs : list hold) (um um' : gmap Z umutex) (f : frame) t j k v p r m0 :
+  f_call f = CLoadOrStore j k v p -> post_label p = Some (f_pc f) -> (f_los f).1 = m0 -> km k = Some m0 ->
+  step_post um f = Some (Ok (um', Return r)) ->
+  (forall m, mutex_ok (default UFree (um !! m)) (base.filter (on_km km m) hs)) ->
+  match f_pc f with
+  | KM_Unlock | KRW_Unlock => (t, k, true) ∈ hs
+  | KRW_RUnlock => (t, k, false) ∈ hs
+  | _ => True
+  end ->
+  forall m, mutex_ok (default UFree (um' !! m)) (base.filter (on_km km m) (hold_step hs (t, CLoadOrStore j k v p, r))).
+Proof.
+  intros Hcall Hpost Hlos Hkm Hsp HI Hd m.
+  assert (Hin : forall b, on_km km m0 (t, k, b)) by (intros b; exact Hkm).
+  assert (Hout : forall b m, m <> m0 -> ~ on_km km m (t, k, b)) by (intros b m1 N E; unfold on_km in E; cbn in E; congruence).
+  destruct (decide (m = m0)) as [->|N].
+  - specialize (HI m0). unfold step_post in Hsp. rewrite Hlos in Hsp.
+    destruct p; cbn in Hpost; try discriminate; injection Hpost as Hpost; rewrite <- Hpost in Hsp, Hd;
+      destruct (default UFree (um !! m0)) as [| |[|n]] eqn:Est; cbn in Hsp; simplify_eq;
+      rewrite ?lookup_insert, ?Est; cbn [default from_option id]; unfold hold_step; cbn [acquires releases fst snd];
+      cbn [mutex_ok] in HI |- *.
+    all: try exact HI.
+    all: try (rewrite list.filter_app, filter_cons_True, filter_nil by apply Hin).
+    all: try (rewrite filter_remove_first_in by apply Hin).
+    all: try (assert (Hd' : (t, k, true) ∈ base.filter (on_km km (f_los f).1) hs) by (apply elem_of_list_filter; split; [apply Hin|exact Hd]));
+         try (assert (Hd' : (t, k, false) ∈ base.filter (on_km km (f_los f).1) hs) by (apply elem_of_list_filter; split; [apply Hin|exact Hd])).
+    all: try solve [rewrite HI; cbn; eauto].
+    all: try solve [destruct HI as [HI _]; apply length_zero_nil in HI; rewrite HI; cbn; eauto].
+    all: try solve [destruct HI as (t1 & k1 & HI); rewrite HI in *; apply elem_of_list_singleton in Hd'; rewrite <- Hd'; apply remove_first_here].
+    all: try solve [destruct HI as [HI1 HI2]; split; [rewrite app_length; cbn; lia|apply Forall_app; split; [exact HI2|repeat constructor]]].
+    destruct HI as [HI1 HI2]. apply remove_first_length in Hd'. rewrite HI1 in Hd'. injection Hd' as Hd'.
+    destruct n as [|n]; cbn [mutex_ok].
+    + apply length_zero_nil. symmetry. exact Hd'.
+    + split; [symmetry; exact Hd'|apply remove_first_Forall, HI2].
+  - rewrite (step_post_frame _ _ _ _ m Hsp) by (unfold mutex_of; congruence).
+    specialize (HI m). unfold hold_step. cbn [fst snd].
+    destruct (acquires (CLoadOrStore j k v p) r) as [[k' b]|] eqn:Ea.
+    + assert (k' = k) by (destruct p, r as [| | |[|]| | |]; cbn in Ea; congruence). subst k'.
+      rewrite list.filter_app, filter_cons_False, filter_nil, app_nil_r by (apply Hout; exact N). exact HI.
+    + destruct (releases (CLoadOrStore j k v p) r) as [[k' b]|] eqn:Er; [|exact HI].
+      assert (k' = k) by (destruct p, r; cbn in Er; congruence). subst k'.
+      rewrite filter_remove_first_out by (apply Hout; exact N). exact HI.
+Qed.
+
+Lemma hold_step_Forall (Q : hold -> Prop) hs t j k v p r :
+  Forall Q hs -> (forall b, Q (t, k, b)) -> Forall Q (hold_step hs (t, CLoadOrStore j k v p, r)).
+Proof.
+  intros H1 H2. unfold hold_step. cbn [fst snd].
+  destruct (acquires (CLoadOrStore j k v p) r) as [[k' b]|] eqn:Ea.
+  - assert (k' = k) by (destruct p, r as [| | |[|]| | |]; cbn in Ea; congruence). subst k'.
+    apply Forall_app. split; [exact H1|]. constructor; [apply H2|constructor].
+  - destruct (releases (CLoadOrStore j k v p) r) as [[k' b]|] eqn:Er; [|exact H1]. apply remove_first_Forall, H1.
+Qed.
+
+Lemma hold_step_other hs t c r : (forall b, r <> RBool b) -> r <> RUnit -> hold_step hs (t, c, r) = hs.
+Proof.
+  intros H1 H2. unfold hold_step. cbn [fst snd].
+  assert (acquires c r = None) as -> by (destruct c as [| |? ? ? []| | |], r as [| | |[|]| | |]; cbn; try reflexivity; try congruence; exfalso; eapply H1; eauto).
+  assert (releases c r = None) as -> by (destruct c as [| |? ? ? []| | |], r as [| | |[|]| | |]; cbn; try reflexivity; try congruence; exfalso; eapply H1; eauto).
+  reflexivity.
+Qed.
+
+(* the instance changed by a map step; the ghosts and the mutexes did not *)
+Lemma MInv_ext c c' i i' :
+  c_insts c = [i] -> c_insts c' = [i'] -> kfun (i_st i) -> kfun (i_st i') -> ext (i_st i) (i_st i') ->
+  c_um c' = c_um c -> holders c' = holders c -> MInv c -> MInv c'.
+Proof.
+  intros Hi Hi' F1 F2 He Hum Hh (i0 & Hi0 & Hk & Hm). assert (i0 = i) by congruence. subst i0.
+  exists i'. split; [exact Hi'|]. rewrite Hh, Hum.
+  assert (Hk' : Forall (fun h : hold => is_Some (kmut (i_st i') h.1.2)) (holders c)).
+  { eapply Forall_impl; [|exact Hk]. intros h [m Hm0]. exists m. exact (kmut_ext _ _ _ _ F1 F2 He Hm0). }
+  split; [exact Hk'|]. intros m.
+  rewrite (filter_ext_in (on_km (kmut (i_st i')) m) (on_km (kmut (i_st i)) m)); [apply Hm|].
+  intros h Hin. rewrite Forall_forall in Hk. destruct (Hk h (proj1 (elem_of_list_In _ _) Hin)) as [m0 Hm0]. unfold on_km.
+  rewrite Hm0, (kmut_ext _ _ _ _ F1 F2 He Hm0). reflexivity.
+Qed.
+
+Theorem MInv_step c t ch c' : IOInv c -> MInv c -> disciplined c -> step c t ch = Some c' -> MInv c'.
+Proof.
+  intros HIO HM Hd Hstep. destruct (IOInv_step _ _ _ _ HIO Hstep) as [HIO' Hext].
+  destruct HIO as [HI HS HP HH (i & Hi & Ha & Hf & Hr)].
+  assert (HS0 : Shaped flat_call c) by (eapply Shaped_weaken; [apply io_flat|exact HS]).
+  pose proof (step_fstep _ _ _ _ HI HS0 Hstep) as Hfs.
+  assert (Hi0 : nth_error (c_insts c) 0 = Some i) by (rewrite Hi; reflexivity).
+  assert (Hkf : kfun (i_st i)) by (eapply Inv_kfun; eauto).
+  destruct (io_inst _ HIO') as (i2 & Hi2 & _).
+  assert (Hkf2 : kfun (i_st i2)). { eapply (Inv_kfun c' 0); [apply (io_inv _ HIO')|]. rewrite Hi2. reflexivity. }
+  destruct Hfs as [th f um' r Hth Hst Hpl Hsp|th f k Hth Hst Hpl Hsp|th f i0 i' f' Hth Hst Hpl Hi1 Hsf|th f i0 i' r Hth Hst Hpl Hi1 Hsf];
+    (assert (Tt : top_frame c t = Some f) by (unfold top_frame; rewrite Hth, Hst; reflexivity));
+    (assert (P0 : t_fresh th = false -> pend_of (c_hist c) !! t = Some (f_call f)) by (eapply HistOK_pend; eauto));
+    (assert (Hio : io_call (f_call f)) by (destruct (HS t th Hth) as [_ Hs]; rewrite Hst in Hs; exact Hs)).
+  - (* the step on the key's mutex *)
+    destruct HM as (i0 & Hi0' & Hk & Hm). assert (i0 = i) by congruence. subst i0.
+    destruct (f_call f) as [|?|j k v p| | |] eqn:Hcall; try contradiction.
+    { exfalso. apply (fo_post _ (inv_frames c HI t f Tt)) in Hpl. rewrite Hcall in Hpl. exact Hpl. }
+    specialize (HP t f Tt). rewrite Hcall in HP. pose proof (pc_ok_post_label _ _ _ _ _ HP Hpl) as Hpost.
+    destruct (Hf t f Tt) as [[_ HF2] _].
+    assert (Hkv : kval (i_st i) k (f_los f).1).
+    { rewrite Hcall in HF2. apply HF2. unfold los_known. destruct (f_pc f); try discriminate; reflexivity. }
+    apply kmut_kval in Hkv; [|exact Hkf].
+    assert (Hh : holders {| c_insts := c_insts c; c_um := um';
+                  c_threads := set_nth_list t (next_call {| t_prog := t_prog th; t_stack := []; t_results := t_results th ++ [r]; t_fresh := false |}) (c_threads c);
+                  c_hist := c_hist c ++ inv_ev t th f ++ [EvRes t r]; c_panicked := false |}
+                = hold_step (holders c) (t, CLoadOrStore j k v p, r)).
+    { unfold holders. cbn [c_hist]. unfold inv_ev. rewrite Hcall. fold (maybe_inv (t_fresh th) t (CLoadOrStore j k v p)).
+      rewrite completed_ret by exact P0. rewrite holders_of_snoc. reflexivity. }
+    exists i. split; [exact Hi|]. rewrite Hh. cbn [c_um]. split.
+    + apply hold_step_Forall; [exact Hk|]. intros b. cbn. eauto.
+    + eapply mutex_post; eauto.
+      specialize (Hd t f Tt). rewrite Hcall in Hd. cbn [key_of] in Hd. exact Hd.
+  - (* ... panics *)
+    destruct HM as (i0 & Hi0' & Hk & Hm). assert (i0 = i) by congruence. subst i0.
+    exists i. split; [exact Hi|].
+    assert (Hh : holders {| c_insts := c_insts c; c_um := c_um c;
+                  c_threads := set_nth_list t {| t_prog := []; t_stack := []; t_results := t_results th ++ [RPanic k]; t_fresh := false |} (c_threads c);
+                  c_hist := c_hist c ++ inv_ev t th f ++ [EvRes t (RPanic k)]; c_panicked := true |} = holders c).
+    { unfold holders. cbn [c_hist]. unfold inv_ev. fold (maybe_inv (t_fresh th) t (f_call f)).
+      rewrite completed_ret by exact P0. rewrite holders_of_snoc. apply hold_step_other; discriminate. }
+    rewrite Hh. cbn [c_um]. auto.
+  - (* map steps *)
+    assert (i0 = i) by congruence. subst i0.
+    apply (MInv_ext c _ i i2 Hi Hi2 Hkf Hkf2 (Hext i i2 Hi Hi2)); [reflexivity| |exact HM].
+    unfold holders. cbn [c_hist]. unfold inv_ev. fold (maybe_inv (t_fresh th) t (f_call f)).
+    rewrite completed_cont by exact P0. reflexivity.
+  - assert (i0 = i) by congruence. subst i0.
+    apply (MInv_ext c _ i i2 Hi Hi2 Hkf Hkf2 (Hext i i2 Hi Hi2)); [reflexivity| |exact HM].
+    unfold holders. cbn [c_hist]. unfold inv_ev. fold (maybe_inv (t_fresh th) t (f_call f)).
+    rewrite completed_ret by exact P0. rewrite holders_of_snoc. apply hold_step_other.
+    + rewrite io_call_not_delete by exact Hio. destruct (sf_ret_shape _ _ _ _ _ _ Hio (HP t f Tt) Hsf) as [[o ->]|(a & l & ->)]; discriminate.
+    + rewrite io_call_not_delete by exact Hio. destruct (sf_ret_shape _ _ _ _ _ _ Hio (HP t f Tt) Hsf) as [[o ->]|(a & l & ->)]; discriminate.
+Qed.
+
+Lemma MInv_init progs : MInv (init_config 1 progs).
+Proof.
+  exists empty_inst. split; [reflexivity|]. split; [constructor|]. intros m. cbn. rewrite lookup_empty. reflexivity.
+Qed.
+
+Theorem MInv_run c sched : IOInv c -> MInv c -> disc_from c sched -> MInv (run_schedule c sched).
+Proof.
+  revert c. induction sched as [|[t ch] sched IH]; intros c HIO HM Hd; cbn; [exact HM|].
+  destruct Hd as [Hd1 Hd2]. destruct (step c t ch) as [c'|] eqn:E; cbn in *; [|apply IH; assumption].
+  apply IH; [apply (IOInv_step _ _ _ _ HIO E)|eapply MInv_step; eauto|exact Hd2].
+Qed.
+
+Theorem MInv_reachable progs sched : io_progs progs -> disc_from (init_config 1 progs) sched ->
+  MInv (run_schedule (init_config 1 progs) sched).
+Proof. intros Hp Hd. apply MInv_run; [apply IOInv_init, Hp|apply MInv_init|exact Hd]. Qed.
+
+(* while a thread holds key k exclusively nobody else holds k, in any mode, and the key's mutex is locked *)
+Lemma MInv_excl c t1 k : MInv c -> holds_excl c t1 k ->
+  (forall t2 b, (t2, k, b) ∈ holders c -> t2 = t1 /\ b = true) /\
+  exists i m, c_insts c = [i] /\ kmut (i_st i) k = Some m /\ c_um c !! m = Some ULocked.
+Proof.
+  intros (i & Hi & Hk & Hm) H1. unfold holds_excl in H1.
+  rewrite Forall_forall in Hk. destruct (Hk _ (proj1 (elem_of_list_In _ _) H1)) as [m Hkm]. cbn in Hkm.
+  specialize (Hm m).
+  assert (In1 : (t1, k, true) ∈ base.filter (on_km (kmut (i_st i)) m) (holders c)) by (apply elem_of_list_filter; split; [exact Hkm|exact H1]).
+  destruct (c_um c !! m) as [[| |n]|] eqn:Est; cbn in Hm.
+  - rewrite Hm in In1. inversion In1.
+  - destruct Hm as (t0 & k0 & Hm). rewrite Hm in In1. apply elem_of_list_singleton in In1. injection In1 as <- <-. split.
+    + intros t2 b H2.
+      assert (In2 : (t2, k, b) ∈ base.filter (on_km (kmut (i_st i)) m) (holders c)) by (apply elem_of_list_filter; split; [exact Hkm|exact H2]).
+      rewrite Hm in In2. apply elem_of_list_singleton in In2. injection In2 as -> ->. auto.
+    + exists i, m. auto.
+  - destruct Hm as [_ Hm]. rewrite Forall_forall in Hm. specialize (Hm _ (proj1 (elem_of_list_In _ _) In1)). discriminate.
+  - rewrite Hm in In1. inversion In1.
+Qed.
+
+(* per-KEY mutual exclusion, for all programs of keyed-mutex calls and all schedules in which a thread
+   only unlocks what it holds: at most one thread holds k exclusively, and then nobody holds it shared *)
+Theorem keyed_mutual_exclusion progs sched : io_progs progs -> disc_from (init_config 1 progs) sched ->
+  let c := run_schedule (init_config 1 progs) sched in
+  forall k t1 t2, holds_excl c t1 k -> (holds_excl c t2 k -> t1 = t2) /\ ~ holds_shared c t2 k.
+Proof.
+  intros Hp Hd c k t1 t2 H1. destruct (MInv_excl c t1 k (MInv_reachable progs sched Hp Hd) H1) as [H _]. split.
+  - intros H2. destruct (H t2 true H2). auto.
+  - intros H2. destruct (H t2 false H2). discriminate.
+Qed.
+
+(* ... and the key's mutex (the value every LoadOrStore k returns) is then locked; with readers inside
+   it is in the reader state *)
+Theorem keyed_holder_locks_mutex progs sched : io_progs progs -> disc_from (init_config 1 progs) sched ->
+  let c := run_schedule (init_config 1 progs) sched in
+  forall k t m, holds_excl c t k -> key_value c k m -> c_um c !! m = Some ULocked.
+Proof.
+  intros Hp Hd c k t m H1 (i & Hi & Hkv).
+  destruct (MInv_excl c t k (MInv_reachable progs sched Hp Hd) H1) as [_ (i0 & m0 & Hi0 & Hkm & Hum)].
+  assert (i0 = i) by congruence. subst i0.
+  assert (Hkf : kfun (i_st i)). { eapply (Inv_kfun c 0); [apply (io_inv _ (IOInv_reachable progs sched Hp))|]. fold c. rewrite Hi. reflexivity. }
+  apply kmut_kval in Hkm; [|exact Hkf]. rewrite (kval_fun _ _ _ _ Hkf Hkv Hkm). exact Hum.
+Qed.
+
+(* ---- a decidable form of the discipline, for examples ---- *)
+Definition disciplinedb (c : config) : bool :=
+  forallb (fun tth : nat * thread =>
+    match t_stack tth.2 with
+    | f :: _ =>
+        match f_pc f with
+        | KM_Unlock | KRW_Unlock => bool_decide ((tth.1, key_of (f_call f), true) ∈ holders c)
+        | KRW_RUnlock => bool_decide ((tth.1, key_of (f_call f), false) ∈ holders c)
+        | _ => true
+        end
+    | [] => true
+    end) (imap pair (c_threads c)).
+
+Lemma nth_error_list_lookup {X} (l : list X) n : nth_error l n = l !! n.
+Proof. revert n. induction l as [|x l IH]; intros [|n]; cbn; auto. Qed.
+
+Lemma disciplinedb_ok c : disciplinedb c = true -> disciplined c.
+Proof.
+  unfold disciplinedb. rewrite forallb_forall. intros H t f Tt. unfold top_frame in Tt.
+  destruct (nth_error (c_threads c) t) as [th|] eqn:Hth; [|discriminate].
+  assert (Hin : In (t, th) (imap pair (c_threads c))).
+  { apply elem_of_list_In, elem_of_lookup_imap. exists t, th. split; [reflexivity|]. rewrite <- nth_error_list_lookup. exact Hth. }
+  specialize (H _ Hin). cbn in H. destruct (t_stack th) as [|f0 st]; [discriminate|]. cbn in Tt. injection Tt as ->.
+  unfold holds_excl, holds_shared. destruct (f_pc f); try exact I; apply bool_decide_eq_true in H; exact H.
+Qed.
+
+Fixpoint disc_fromb (c : config) (sched : list (nat * Z)) : bool :=
+  match sched with
+  | [] => true
+  | (t, ch) :: sched' => disciplinedb c && disc_fromb (default c (step c t ch)) sched'
+  end.
+Lemma disc_fromb_ok c sched : disc_fromb c sched = true -> disc_from c sched.
+Proof.
+  revert c. induction sched as [|[t ch] sched IH]; intros c H; cbn in *; [exact I|].
+  apply andb_true_iff in H as [H1 H2]. split; [apply disciplinedb_ok, H1|apply IH, H2].
+Qed.
+
+(* ---- non-vacuity: two threads race LockKey/UnlockKey on a never-seen key ---- *)
+Definition ex_progs : list (list call) :=
+  [[CLoadOrStore 0 7 1001 PLock; CLoadOrStore 0 7 1002 PUnlock]; [CLoadOrStore 0 7 2001 PLock; CLoadOrStore 0 7 2002 PUnlock]].
+Definition ex_alt (n : nat) : list (nat * Z) := concat (repeat [(0%nat, 0%Z); (1%nat, 0%Z)] n).
+
+Lemma ex_progs_io : io_progs ex_progs.
+Proof. repeat constructor. Qed.
+
+Example insert_only_example :
+  disc_fromb (init_config 1 ex_progs) (ex_alt 30) = true /\
+  (let c := run_schedule (init_config 1 ex_progs) (ex_alt 10) in
+   (* thread 0 won the race and holds key 7; thread 1's LoadOrStore(7, 2001) returned thread 0's mutex 1001 and it is blocked on it *)
+   holders c = [(0%nat, 7%Z, true)] /\ map thread_label (c_threads c) = [Some LOS_lock; Some KM_Lock] /\
+   option_map (fun f => (f_los f).1) (top_frame c 1) = Some 1001%Z /\ map_to_list (c_um c) = [(1001%Z, ULocked)] /\
+   step c 1 0 = None) /\
+  (let c := run_schedule (init_config 1 ex_progs) (ex_alt 30) in
+   holders c = [] /\ map thread_label (c_threads c) = [None; None] /\ map_to_list (c_um c) = [(1001%Z, UFree)] /\
+   length (completed (c_hist c)) = 4 /\ c_panicked c = false).
+Proof. vm_compute. repeat split. Qed.
